@@ -545,3 +545,131 @@ def run_hl(case, exact):
             return res
         finally:
             P.restore()
+
+
+# ------------------------------------------------------------------------------------------ packet level (round 4)
+class _Platform(object):
+    def __init__(self, version):
+        self._v = version
+
+    def get_protocol_version(self):
+        return self._v
+
+
+class CallTap(object):
+    """passes every call on to the REAL commander object and records (name, time, args, wire index before/after)"""
+
+    def __init__(self, real, sim, calls, wire, prefix):
+        self._real, self._sim, self._calls, self._wire, self._prefix = real, sim, calls, wire, prefix
+
+    def __getattr__(self, name):
+        if name.startswith('_'):
+            raise AttributeError(name)
+        m = getattr(self._real, name)
+        if not callable(m):
+            return m
+
+        def call(*a, **kw):
+            before = len(self._wire)
+            rec = [self._prefix + name, self._sim.now, list(a) + ([sorted(kw.items())] if kw else []), before, None]
+            self._calls.append(rec)
+            try:
+                return m(*a, **kw)
+            finally:
+                rec[4] = len(self._wire)
+        return call
+
+
+class WireCF(object):
+    """Crazyflie-like object carrying the REAL Commander and HighLevelCommander over a recording send_packet"""
+
+    def __init__(self, sim, version):
+        from cflib.crazyflie.commander import Commander
+        from cflib.crazyflie.high_level_commander import HighLevelCommander
+        self._sim = sim
+        self.wire = []
+        self.calls = []
+        self.platform = _Platform(version)
+        self.commander = CallTap(Commander(self), sim, self.calls, self.wire, 'c.')
+        self.high_level_commander = CallTap(HighLevelCommander(self), sim, self.calls, self.wire, 'h.')
+        self.param = Recorder(sim, 'p.')
+
+    def is_connected(self):
+        return True
+
+    def send_packet(self, pk, *a, **kw):
+        self.wire.append((self._sim.now, int(pk.port), int(pk.channel), bytes(pk.data)))
+
+
+def run_wire(case):
+    """Several flights, one after the other, on ONE Crazyflie-like object (one real Commander / HighLevelCommander),
+    float mode.  case = {'version': n, 'sched': bits, 'flights': [{'kind': 'mc'|'hl', ...as for run_mc/run_hl...}]}"""
+    import warnings
+    import cflib.positioning.motion_commander as M
+    import cflib.positioning.position_hl_commander as H
+    with _run_lock:
+        sim = Sim(False, case.get('sched', []))
+        P = _Patch()
+        P.set(M, 'time', FakeTime(sim))
+        P.set(M, 'Queue', sim.make_queue_class())
+        P.set(H, 'time', FakeTime(sim))
+        P.set(M._SetPointThread, 'start', lambda self: sim.start_thread(self))
+        P.set(M._SetPointThread, 'join', lambda self, timeout=None: sim.join_thread(self))
+        try:
+            with warnings.catch_warnings():
+                warnings.simplefilter('ignore')
+                cf = WireCF(sim, case.get('version', 10))
+                flights = []
+                helpers = {}
+                for fl in case['flights']:
+                    w0, c0 = len(cf.wire), len(cf.calls)
+                    entered, exc, marks = False, None, []
+                    key = fl.get('reuse')
+                    if fl['kind'] == 'mc':
+                        if key is not None and key in helpers:
+                            obj = helpers[key]
+                        elif fl.get('default_height') is None:
+                            obj = M.MotionCommander(cf)
+                        else:
+                            obj = M.MotionCommander(cf, sim.num(fl['default_height']))
+                    else:
+                        if key is not None and key in helpers:
+                            obj = helpers[key]
+                        else:
+                            kw = {k: sim.num(fl[k]) for k in ('x', 'y', 'z', 'default_velocity', 'default_height',
+                                                              'default_landing_height') if fl.get(k) is not None}
+                            obj = H.PositionHlCommander(cf, **kw)
+                    if key is not None:
+                        helpers[key] = obj
+                    try:
+                        with obj:
+                            entered = True
+                            marks.append((len(cf.wire), bool(obj._is_flying)))
+                            for op in fl['ops']:
+                                if op[0] == 'raise':
+                                    raise UserError()
+                                if op[0] == 'wait':
+                                    sim.sleep(sim.num(op[1]))
+                                else:
+                                    _call(obj, op[0], op[1:], sim)
+                                marks.append((len(cf.wire), bool(obj._is_flying)))
+                    except SimHang:
+                        raise
+                    except BaseException as e:  # noqa
+                        exc = e
+                    w_exit = len(cf.wire)
+                    flying_after = bool(obj._is_flying)
+                    alive_after = len(sim.alive())
+                    sim.sleep(sim.num(fl.get('epilogue', '0.5')))      # time passes between flights
+                    flights.append({'kind': fl['kind'], 'entered': entered, 'exc': classify_exc(exc), 'w0': w0, 'w_exit': w_exit,
+                                    'w1': len(cf.wire), 'c0': c0, 'c1': len(cf.calls), 'marks': marks,
+                                    'flying_after': flying_after, 'alive_after': alive_after})
+                    if not entered or alive_after:
+                        break       # a surviving thread would be attributed to the next flight
+                return {'flights': flights, 'wire': cf.wire[:], 'calls': [list(c) for c in cf.calls],
+                        'period': M._SetPointThread.UPDATE_PERIOD, 'version': case.get('version', 10)}
+        finally:
+            try:
+                sim.terminate_all()
+            finally:
+                P.restore()
